@@ -274,6 +274,7 @@ func (p *eventPool) get(size int) *Event {
 			// slowest path
 			p.slowWaiters.Inc()
 			p.getMu.Lock()
+			verifPoint("std.beforeWait")
 			p.getCond.Wait()
 			p.getMu.Unlock()
 			p.slowWaiters.Dec()
@@ -453,6 +454,7 @@ again:
 	p.slowWaiters.Inc()
 	p.getCond.L.Lock()
 	if !p.eventsAvailable() {
+		verifPoint("lowmem.beforeWait")
 		p.getCond.Wait()
 	}
 	p.getCond.L.Unlock()
